@@ -84,9 +84,16 @@ def _c09_trace(chk, thorough):
 def c09(chk, opts):
     thorough = chk.tier == "thorough"
     build("release")
+    build("dev")
     r = tlc("MCParser", cfg="MCParserThorough.cfg" if thorough else "MCParser.cfg", timeout=3000, heap="8g")
     chk.add_tlc(r, "MCParser(all strings <= %d over 22 chars)" % (5 if thorough else 4))
     trace = _c09_trace(chk, thorough)
+    # the same calls in a debug build (overflow checks and debug assertions on), on a smaller corpus
+    tdev = chk.path("c09-dev.ndjson")
+    hx(["c09", "--seed", chk.seed, "--maxlen", 2, "--edits", 6000 if thorough else 1500, "--unicode", 1500 if thorough else 400, "--sfx-len", 2,
+        "--threads", NCPU, "--out", tdev], profile="dev", timeout=3000)
+    with open(trace, "a") as f:
+        f.write(open(tdev).read())
     r, events, bad = validate_independent(chk, "TraceNotation", trace, "TraceNotation(C09)", cfg="TraceNotationC09.cfg", heap="10g", timeout=3000)
     drift = sorted(set(int(x) for x in re.findall(r'<<"DRIFT", (\d+)>>', r.raw)))
     if drift:
